@@ -755,3 +755,33 @@ def dir_per_run(u: Unit):
 
 
 STANDIN = {r"dir\.per_run": RUNDIR_REPLAY, r"names|build\.names": NAMES_REPLAY}
+
+
+# ---- bounded native audit: lossless formats read back bit-identically ---------------------------------------------------------------------
+READBACK_AUDIT = lambda w: {"code": """
+import numpy as np, tempfile, warnings
+from pathlib import Path
+from astropy.io import fits
+from pyxel.outputs import utils as U
+warnings.simplefilter('ignore')
+VIOLATED, DETAIL = False, 'what the lossless writers put on disk reads back bit-identically; every writer returns the path it wrote'
+d = Path(tempfile.mkdtemp())
+arrays = [np.arange(6.0).reshape(2, 3) / 7.0, np.array([[1e-300, 1e300], [np.pi, -0.0]]), np.arange(12, dtype=np.uint16).reshape(3, 4), np.arange(6, dtype=np.uint64).reshape(2, 3) + 2 ** 40,
+          np.arange(6, dtype=np.float32).reshape(3, 2) / 3]
+for k, a in enumerate(arrays):
+    for run in (None, 0, 7):
+        kw = dict(current_output_folder=d, data=a, name=f'detector_image{k}', with_auto_suffix=run is not None, **({'run_number': run} if run is not None else {}))
+        f = U.to_npy(**kw)
+        back = np.load(f)
+        if back.dtype != a.dtype or not np.array_equal(back, a) or back.tobytes() != a.tobytes():
+            VIOLATED, DETAIL = True, f'npy: array {k} ({a.dtype}) read back as {back.dtype}, equal={np.array_equal(back, a)}'; break
+        f = U.to_fits(**kw)
+        back = fits.getdata(f)
+        if not np.array_equal(np.asarray(back, dtype=a.dtype), a) or np.asarray(back).shape != a.shape:
+            VIOLATED, DETAIL = True, f'fits: array {k} ({a.dtype}) read back as {np.asarray(back).dtype} {np.asarray(back).ravel()[:3]}'; break
+        if run is not None and (not str(f).endswith(f'_{run + 1}.fits')):
+            VIOLATED, DETAIL = True, f'run {run}: file name {f}'; break
+    if VIOLATED: break
+""", "expect": "to_npy and to_fits files read back with the same type, shape and bits (float64 extremes, uint16, uint64 beyond 2^32, float32)",
+    "bound": "5 arrays x {no run number, run 0, run 7} x {npy, fits}", "function": "pyxel/outputs/utils.py"}
+AUDITS = {"lossless.readback": READBACK_AUDIT}
